@@ -77,6 +77,37 @@ def run_one(mod, verif_seed: int, index: int, tier: str):
 
 
 def _worker_batch(args):
+    """Runs in a pool worker: every chunk is executed in a freshly forked child, so that each
+    chunk starts from the pristine state of the (never-executing) parent and a violation can be
+    reproduced from (chunk prefix, index) alone even if the code under test keeps process-global
+    state across runs."""
+    import pickle
+
+    r, w = os.pipe()
+    pid = os.fork()
+    if pid == 0:
+        code = 0
+        try:
+            os.close(r)
+            out = _run_chunk(args)
+            data = pickle.dumps(out)
+            with os.fdopen(w, "wb") as f:
+                f.write(data)
+        except BaseException:  # noqa: BLE001
+            traceback.print_exc()
+            code = 3
+        finally:
+            os._exit(code)
+    os.close(w)
+    with os.fdopen(r, "rb") as f:
+        data = f.read()
+    _, status = os.waitpid(pid, 0)
+    if not data:
+        raise RuntimeError(f"chunk {args[2][:1]}.. child exited with status {status} and no result")
+    return pickle.loads(data)
+
+
+def _run_chunk(args):
     name, verif_seed, indices, tier, wall_cap = args
     faulthandler.enable()
     faulthandler.dump_traceback_later(wall_cap, exit=True)
@@ -116,7 +147,9 @@ def _worker_batch(args):
             if len(out["violations"]) < 40:
                 out["violations"].append(
                     dict(index=idx, seed=case["_seed"], case=case, violation=v,
-                         digest=res["digest"], tape=res.get("tape"))
+                         digest=res["digest"], tape=res.get("tape"),
+                         history=dict(check=name, verif_seed=verif_seed, tier=tier,
+                                      indices=[i for i in indices if i < idx]))
                 )
             out["counters"]["violating_runs"] = out["counters"].get("violating_runs", 0) + 1
             break
@@ -137,12 +170,12 @@ def sample_view(case, res):
 # replay files
 # ---------------------------------------------------------------------------
 
-def write_replay(prop, case, violation, digest, tape, suffix=""):
+def write_replay(prop, case, violation, digest, tape, suffix="", history=None):
     os.makedirs(REPLAY_DIR, exist_ok=True)
     path = os.path.join(REPLAY_DIR, f"{prop}-{case.get('_seed', 0)}{suffix}.json")
     with open(path, "w") as f:
         json.dump(
-            dict(property=prop, violation=violation, digest=digest, case=case, tape=tape),
+            dict(property=prop, violation=violation, digest=digest, case=case, tape=tape, history=history),
             f, indent=1, default=str,
         )
     return path
@@ -151,6 +184,14 @@ def write_replay(prop, case, violation, digest, tape, suffix=""):
 def replay_file(mod, path):
     with open(path) as f:
         r = json.load(f)
+    h = r.get("history")
+    if h and h.get("indices"):
+        # the violation depends on what ran earlier in the same process: re-run that prefix first
+        for i in h["indices"]:
+            try:
+                run_one(mod, h["verif_seed"], i, h["tier"])
+            except BaseException:  # noqa: BLE001
+                pass
     res = mod.execute(r["case"], sched=r.get("tape"))
     return r, res
 
@@ -343,19 +384,30 @@ def main_check(name: str, tier: str, verif_seed: int, runs=None, minutes=None, p
             continue
         path = write_replay(prop, case, viol, digest, tape)
         rep, err = replay_in_fresh_interpreter(prop, path)
-        if rep is None or rep.get("cls") != vclass(viol) or rep.get("digest") != digest:
-            # fall back to the unminimised case before giving up
+        note = ""
+        if rep is None or rep.get("cls") != vclass(viol):
+            # fall back to the unminimised case, then to the case preceded by the runs that
+            # shared its process (a violation that needs process-global state built up earlier)
             path = write_replay(prop, v["case"], v["violation"], v["digest"], v["tape"], suffix="-raw")
-            rep2, err2 = replay_in_fresh_interpreter(prop, path)
-            if rep2 is None or rep2.get("cls") != vclass(v["violation"]) or rep2.get("digest") != v["digest"]:
-                lines.append(
-                    f"HARNESS-ERROR property={prop} violation class {cls!r} did not replay "
-                    f"deterministically (replay={path}; got {rep2 or err2 or err})"
-                )
-                exit_code = max(exit_code, EXIT_HARNESS)
-                continue
-            viol = v["violation"]
+            rep, err2 = replay_in_fresh_interpreter(prop, path)
+            viol, digest = v["violation"], v["digest"]
+            if rep is None or rep.get("cls") != vclass(viol):
+                path = write_replay(prop, v["case"], v["violation"], v["digest"], v["tape"],
+                                    suffix="-history", history=v.get("history"))
+                rep, err3 = replay_in_fresh_interpreter(prop, path, timeout=1800)
+                if rep is None or rep.get("cls") != vclass(viol):
+                    lines.append(
+                        f"HARNESS-ERROR property={prop} violation class {cls!r} did not replay "
+                        f"(replay={path}; got {rep or err3 or err2 or err})"
+                    )
+                    exit_code = max(exit_code, EXIT_HARNESS)
+                    continue
+                note = " [reproduces only after the runs that preceded it in the same process: depends on process-global state]"
+        if rep.get("digest") != digest:
+            note += " [same violation class on replay but a different event-log digest: the run depends on state outside the case]"
         lines.append(f"VIOLATION property={prop} replay={path}")
+        if note:
+            lines.append("  note:" + note)
         lines.append(f"  class={vclass(viol)} msg={viol.get('msg', '')[:300]}")
         lines.append(f"  ({len(vs)} violating runs of this class; minimised in {tried} re-executions)")
         reported.append(dict(cls=vclass(viol), replay=path, runs=len(vs)))
